@@ -1,5 +1,5 @@
 (* Hand model of the container layer of nifly:
-     NiString::Read/Write            src/BasicTypes.cpp:56-121
+     NiString::Read/Write            src/BasicTypes.cpp:56-110
      NiStringRef::Read/Write         src/BasicTypes.cpp:124-153
      string table functions          src/BasicTypes.cpp:459-547
      NiHeader::Get / NiHeader::Put   src/BasicTypes.cpp:564-770
@@ -62,14 +62,17 @@ Definition rd_nistring (w : nat) (s : list N) : res (list N * list N) :=
          | None => Fault
          end).
 
-(* Write: [sz = uintW(str.length()); str.resize(sz); if (nullOutput) sz += 1; stream << sz;
+(* Write: the string is cut in place to the longest one the size prefix can express (the size
+   counts the terminator when nullOutput is set): [maxLength = nullOutput ? max - 1 : max;
+   if (str.length() > maxLength) str.resize(maxLength); stream << uintW(length (+ 1));
    stream.write(str); if (nullOutput) stream << uint8_t(0)].
-   Returns the bytes and the string as it is left in memory (resize truncates in place). *)
+   Returns the bytes and the string as it is left in memory. *)
 Definition wr_nistring (w : nat) (null_out : bool) (str : list N) : list N * list N :=
-  let sz := vlen str mod 256 ^ N.of_nat w in
-  let str' := firstn (N.to_nat sz) str in
-  let sz' := if null_out then (sz + 1) mod 256 ^ N.of_nat w else sz in
-  (le_bytes w sz' ++ str' ++ (if null_out then [0] else []), str').
+  let max_size := 256 ^ N.of_nat w - 1 in
+  let max_len := if null_out then max_size - 1 else max_size in
+  let str' := if max_len <? vlen str then firstn (N.to_nat max_len) str else str in
+  let sz := if null_out then vlen str' + 1 else vlen str' in
+  (le_bytes w sz ++ str' ++ (if null_out then [0] else []), str').
 
 (* ---- NiStringRef (BasicTypes.cpp:124-153): (index, str) ---- *)
 Definition V20_1_0_3 : N := 0x14010003.
